@@ -64,6 +64,7 @@ def check(ctx):
     repo = ctx.repo
     docs = require_labels(SCREENING_LABELS)
     ctx.note("specification", {k: v[:160] for k, v in docs.items()})
+    ctx.rule("R13.7", "the screening iteration never writes into the arrays it is handed: a stored induced potential stays paired with its currents", 1)
     ctx.rule("R13.1", "numba kernel == eq. polyak line 1 (direct double sum with area weights)", 1)
     ctx.rule("R13.2", "cupy kernel == the same sum (accelerated == direct)", 1)
     ctx.rule("R13.3", "both call sites pass (J_site, weighted areas, xi*sites, xi*edge_centers, output) in parameter order; J is the total current", 3)
@@ -83,6 +84,9 @@ def check(ctx):
     call_sites(ctx, fg)
     polyak(ctx, fg)
     loop_discipline(ctx)
+    from ..effects import input_purity
+    input_purity(ctx, "R13.7", modules=("tdgl.solver",), min_functions=30, consequence="the induced vector potential stored in a finished Solution (handed in as seed) is overwritten by the next run's "
+                               "iterate: the stored potential no longer reproduces the Biot-Savart sum of the stored currents")
     ctx.assume("prefactor mu0/(4 pi) K0/A0 and the xi^2 area scaling are inside `self.areas` (checked with exact unit factors by C08 R08.1)")
     ctx.decline("convergence of the fixed-point iteration; 'stored potential reproduces the sum within a modest multiple of the "
                 "tolerance' (needs a contraction bound); the site-averaging convention of get_quantity_on_site")
@@ -231,13 +235,14 @@ def loop_discipline(ctx):
     reass = [n for n in ast.walk(lp) if isinstance(n, ast.Assign) and any(
         isinstance(x, ast.Name) and x.id in err_names and isinstance(x.ctx, ast.Store) for t in n.targets for x in ast.walk(t))]
     gtxt = [[("" if br == "true" else "not ") + norm(g.test) for g, br in guards_of(fn, r, pm) if isinstance(g, ast.If)] for r in reass]
-    ok = len(reass) == 1 and gtxt[0] == ["options.include_screening"]
+    ok = len(reass) == 1 and len(gtxt[0]) == 1 and gtxt[0][0].endswith(".include_screening") and not gtxt[0][0].startswith("not ")
     ctx.ob("R13.5", "the tested error is the one returned by the last get_induced_vector_potential (one assignment, under include_screening)",
            ok, detail=gtxt, where=fu.fq, construct="screening_error assignment", loc=loc(fu, reass[0]) if reass else "",
            message=f"screening error is assigned {len(reass)} times under {gtxt}",
            consequence="the tolerance test reads a stale or unrelated quantity")
     # R13.6
-    a_defs = asg.get("A_induced", [])
+    from .c10 import update_roles
+    a_defs = asg.get(update_roles(fn)[0], [])
     outside = [(s, v) for s, v in a_defs if not any(x is s for x in ast.walk(lp))]
     inside = [(s, v) for s, v in a_defs if any(x is s for x in ast.walk(lp))]
     ok = len(outside) == 1 and norm(outside[0][1]) == "induced_vector_potential" and all(
@@ -249,8 +254,9 @@ def loop_discipline(ctx):
            message="A_induced is modified although include_screening is false",
            consequence="a non-zero induced vector potential appears with screening disabled")
     fs = repo.func(SOLVER, "TDGLSolver.solve")
-    init = [norm(v) for k, v in _dict_items(fs.node, "parameters") if k == "induced_vector_potential"]
-    ok = len(init) == 2 and init[0].startswith("np.zeros((num_edges, 2))")
+    from ..dataflow import expanded_text
+    init = [expanded_text(fs.node, v) for k, v in _dict_items(fs.node, None) if k == "induced_vector_potential"]
+    ok = len(init) == 2 and init[0].replace("numpy.", "np.").startswith("np.zeros((") and init[0].replace(" ", "").endswith(",2))")
     ctx.ob("R13.6", "the initial induced potential is zeros((num_edges, 2)) (or the seed's)", ok, detail=init, where=fs.fq,
            construct="initial induced_vector_potential", loc=loc(fs, fs.node), message=f"initial induced potential: {init}",
            consequence="the run starts with a spurious induced vector potential")
@@ -259,7 +265,7 @@ def loop_discipline(ctx):
 def _dict_items(fn, name):
     out = []
     for n in own_nodes(fn):
-        if isinstance(n, ast.Assign) and any(isinstance(t, ast.Name) and t.id == name for t in n.targets) \
+        if isinstance(n, ast.Assign) and any(isinstance(t, ast.Name) and (name is None or t.id == name) for t in n.targets) \
                 and isinstance(n.value, ast.Dict):
             for k, v in zip(n.value.keys, n.value.values):
                 if isinstance(k, ast.Constant):
